@@ -757,9 +757,11 @@ class Normaliser:
         for st in c.body:
             if isinstance(st, ast.Expr) and isinstance(st.value, ast.Constant):
                 continue
+            if isinstance(st, ast.Assign) and [src(t) for t in st.targets] == ["__slots__"]:
+                continue
             if not isinstance(st, ast.FunctionDef) or st.decorator_list or not st.args.args or st.args.args[0].arg != "self":
                 return None
-            if st.name.startswith("__") and st.name != "__init__":
+            if st.name.startswith("__") and st.name not in ("__init__", "__call__"):
                 return None
             methods[st.name] = st
         fields = set()
@@ -1008,10 +1010,66 @@ class Normaliser:
         test = v if not negated else ast.UnaryOp(op=ast.Not(), operand=v)
         return [ast.If(test=test, body=clone(st.body), orelse=clone(st.orelse))]
 
+    def _partial_thunk(self, a):
+        """Lambda node for ``partial(<helper of this module>, <simple args>)`` when the bound arguments cover every required parameter, else None.  (The
+        arguments are names / attributes / constants, so evaluating them at call time instead of at creation reads the same values unless rebound.)"""
+        if not (isinstance(a, ast.Call) and (dotted(a.func) or "") in ("partial", "functools.partial") and a.args and not a.keywords and all(_simple_expr(x) for x in a.args)):
+            return None
+        f, given = a.args[0], a.args[1:]
+        h, skip = None, 0
+        if isinstance(f, ast.Attribute) and isinstance(f.value, ast.Name) and len(self.methods.get(f.attr, [])) == 1:
+            h = self.methods[f.attr][0][1]
+            decos = [(dotted(d) or src(d)).split(".")[-1] for d in h.decorator_list]
+            if decos not in ([], ["staticmethod"], ["classmethod"]):
+                return None
+            skip = 0 if decos == ["staticmethod"] else 1
+        elif isinstance(f, ast.Name) and f.id in self.functions and not self.functions[f.id].decorator_list:
+            h = self.functions[f.id]
+        if h is None or h.args.vararg or h.args.kwarg or h.args.kwonlyargs:
+            return None
+        ps = list(h.args.posonlyargs) + list(h.args.args)
+        free = len(ps) - skip
+        if len(given) > free or len(given) < free - len(h.args.defaults):
+            return None
+        noargs = ast.arguments(posonlyargs=[], args=[], vararg=None, kwonlyargs=[], kw_defaults=[], kwarg=None, defaults=[])
+        return ast.Lambda(args=noargs, body=ast.Call(func=clone(f), args=[clone(x) for x in given], keywords=[]))
+
+    def _callable_object(self, a):
+        """``_Private(<simple args>)`` where the private class is a method object with a no-argument __call__"""
+        if not (isinstance(a, ast.Call) and isinstance(a.func, ast.Name) and not a.keywords and all(_simple_expr(x) for x in a.args)):
+            return False
+        got = self._method_object_class(a.func.id)
+        return bool(got) and "__call__" in got[2] and len(params(got[2]["__call__"])) == 1 and not got[2]["__call__"].args.vararg and not got[2]["__call__"].args.kwarg
+
     def _hoist_lambdas(self, st):
         """``x.do(lambda: self._helper(a))`` -> ``def _lamN(): return self._helper(a)`` + ``x.do(_lamN)`` so that the helper can be expanded."""
         if not isinstance(st, (ast.Expr, ast.Assign, ast.Return, ast.AnnAssign)):
             return None
+        # functools.partial(<helper>, a, b) handed over as a call argument, with every required parameter of the helper bound: the closure `lambda: helper(a, b)`
+        thunks = {}
+        objs = []
+
+        def find_values(n):
+            for ch in ast.iter_child_nodes(n):
+                if isinstance(ch, (ast.FunctionDef, ast.AsyncFunctionDef, ast.ClassDef, ast.Lambda)):
+                    continue
+                if isinstance(ch, ast.Call):
+                    for a in ch.args:
+                        t_ = self._partial_thunk(a)
+                        if t_ is not None:
+                            thunks[id(a)] = t_
+                        elif self._callable_object(a):
+                            objs.append(a)
+                find_values(ch)
+        find_values(st)
+        if thunks:
+            class P(ast.NodeTransformer):
+                def visit_Call(s_, node):
+                    if id(node) in thunks:
+                        return ast.copy_location(thunks[id(node)], node)
+                    return s_.generic_visit(node)
+            st = P().visit(st)
+            ast.fix_missing_locations(st)
         lams = []
 
         def find(n, top=True):
@@ -1041,10 +1099,19 @@ class Normaliser:
                                 bound.append(a)
                 find_bound(ch)
         find_bound(st)
-        if not lams and not bound:
-            return None
+        if not lams and not bound and not objs:
+            return [st] if thunks else None
         defs_ = []
         names = {}
+        noargs_ = lambda: ast.arguments(posonlyargs=[], args=[], vararg=None, kwonlyargs=[], kw_defaults=[], kwarg=None, defaults=[])     # noqa: E731
+        for a in objs:
+            # an instance of a private callable class built in place and handed over: the closure that builds it and calls it (the object is then read as locals)
+            self.count += 1
+            nm, ob = f"_lam{self.count}", f"_obj{self.count}"
+            names[id(a)] = nm
+            defs_.append(ast.FunctionDef(name=nm, args=noargs_(), decorator_list=[], returns=None, type_comment=None, type_params=[], body=[
+                ast.Assign(targets=[ast.Name(id=ob, ctx=ast.Store())], value=clone(a)),
+                ast.Return(value=ast.Call(func=ast.Attribute(value=ast.Name(id=ob, ctx=ast.Load()), attr="__call__", ctx=ast.Load()), args=[], keywords=[]))]))
         for lam in lams:
             self.count += 1
             nm = f"_lam{self.count}"
@@ -1069,13 +1136,19 @@ class Normaliser:
                 if id(node) in names:
                     return ast.Name(id=names[id(node)], ctx=ast.Load())
                 return s_.generic_visit(node)
+
+            def visit_Call(s_, node):
+                if id(node) in names:
+                    return ast.Name(id=names[id(node)], ctx=ast.Load())
+                return s_.generic_visit(node)
         st2 = R().visit(st)
         self._fix(defs_ + [st2], st)
         return defs_ + [st2]
 
     def stmt(self, st, level):
         if isinstance(st, (ast.FunctionDef, ast.AsyncFunctionDef)):
-            st.body = self.stmts(st.body, 0)
+            sc = self._scalarise(st)
+            st.body = sc if sc is not None else self.stmts(st.body, 0)
             return [st]
         if isinstance(st, ast.ClassDef):
             return [st]
@@ -1350,9 +1423,27 @@ class Normaliser:
 
             visit_AsyncFunctionDef = visit_Lambda = visit_ClassDef = visit_FunctionDef
 
+        def into_nested(fn_):
+            """a closure reads the enclosing function's single-assignment value: the same substitution applies inside it, unless it binds one of the names itself"""
+            bound_ = {x.id for x in ast.walk(fn_) if isinstance(x, ast.Name) and isinstance(x.ctx, (ast.Store, ast.Del))} | {a_.arg for a_ in ast.walk(fn_) if isinstance(a_, ast.arg)}
+            bound_ |= {d.name for d in ast.walk(fn_) if isinstance(d, (ast.FunctionDef, ast.AsyncFunctionDef, ast.ClassDef)) and d is not fn_}
+            sub_ = {k: v for k, v in mapping.items() if k not in bound_ and not ({x.id for x in ast.walk(v) if isinstance(x, ast.Name)} & bound_)}
+            if not sub_:
+                return
+
+            class TN(ast.NodeTransformer):
+                def visit_Name(s_, node):
+                    if isinstance(node.ctx, ast.Load) and node.id in sub_:
+                        return ast.copy_location(clone(sub_[node.id]), node)
+                    return node
+            fn_.body = [TN().visit(b) for b in fn_.body]
+
         def rewrite(stmts):
             for st in stmts:
-                if isinstance(st, (ast.FunctionDef, ast.AsyncFunctionDef, ast.ClassDef)):
+                if isinstance(st, (ast.FunctionDef, ast.AsyncFunctionDef)):
+                    into_nested(st)
+                    continue
+                if isinstance(st, ast.ClassDef):
                     continue
                 for fld, val in list(ast.iter_fields(st)):
                     if isinstance(val, ast.expr):
